@@ -7,8 +7,9 @@
    (directory, table) of product n version v flavor f in stack s, [a_tag] / [db_tag] the version
    a tag names.  [astep] / [arun] are the abstract specification: the same decisions, each
    record-level action a one-line update of the two finite maps.  [aeq] = same path and the
-   same answer to every lookup.  The flag p selects the tag-move collection of Eups.declare:
-   false = per stack (the code since fix 847d0ea), true = the pinned tree (defect D14).
+   same answer to every lookup.  The flag p selects the tag move of Eups.declare:
+   false = the repaired code (assign first, then unassign in the other stacks, looked up per stack),
+   true = the pinned tree (unassign every occurrence merged across stacks, then assign: D14, D20).
    [step] = [step_gen false]. *)
 From Eupsv Require Import Base.Base Base.BaseLemmas Model.Db Proofs.DbLib Proofs.Db Proofs.DbSim Proofs.DbInv Proofs.DbCor.
 
@@ -154,7 +155,8 @@ Print Assumptions assign_tag_functional.
 
 (* declare with a tag moves it: afterwards the tag names the declared version in the target
    stack and is assigned in no other stack, so resolving it on the path yields the version it
-   was last assigned to; no other tag, product or flavor is touched.  (Tag move collected per
+   was last assigned to; no other tag, product or flavor is touched.  (The tag is assigned in
+   the target stack first and then removed from every other stack that has it, looked up per
    stack; the pinned tree fails this, see tag_functional_and_moves_refuted_pinned.) *)
 Theorem tag_functional_and_moves d o n v dir table x d' :
   no_dangling (view d) ->
@@ -207,7 +209,7 @@ Theorem tag_functional_and_moves_refuted_pinned :
 Proof. vm_compute. auto. Qed.
 Print Assumptions tag_functional_and_moves_refuted_pinned.
 
-(* the same history with the per-stack collection *)
+(* the same history with the repaired tag move *)
 Example tag_moves_d14_repaired :
   let d := run false (empty_db [s1; s2]) d14_history in
   db_tag d s2 (lit "a") current linux = None /\
@@ -400,7 +402,8 @@ Example ex_state :
 Proof. vm_compute. auto. Qed.
 
 (* the effects of one undeclare, in the order the code performs them: tags first, then the
-   version block, then the directory *)
+   version block, then the directory; and of a first declaration: Database.declare writes the
+   chain file of the tag the product carries, Eups.assignTag writes it again (same content) *)
 Example ex_effects :
   let d := run false (empty_db [s1]) [Declare o_any (lit "a") (lit "1") (Some (lit "/p/a1")) None (Some (lit "stable"))] in
   effects d (Undeclare o_any (lit "a") (Some (lit "1"))) =
@@ -409,8 +412,24 @@ Example ex_effects :
   Ok [ Mkdir s1 (lit "a");
        WriteV s1 (lit "a", lit "1") [(linux, (lit "/p/a1", lit "/p/a1/ups/a.table"))];
        WriteC s1 (lit "a", current) [(linux, lit "1")];
-       RemoveC s1 (lit "a", current);
        WriteC s1 (lit "a", current) [(linux, lit "1")] ].
+Proof. vm_compute. auto. Qed.
+
+(* a tag move across two stacks, in the order the code performs it: current names a 1 in s1 and in s2;
+   declare a 2 -t current in s1 rewrites the chain file of s1 once (the tag is at no time unassigned there)
+   and then removes the tag from s2.  The pinned tree removed first, then wrote, and left s2 alone (D20, D14) *)
+Definition ex_move_history : list op :=
+  [ Declare (o_in s1) (lit "a") (lit "1") (Some (lit "/p/a1")) None (Some current);
+    Declare (o_in s2) (lit "a") (lit "1") (Some (lit "/p/a1")) None None;
+    AssignTag (o_in s2) current (lit "a") (lit "1");
+    Declare (o_in s1) (lit "a") (lit "2") (Some (lit "/p/a2")) None None ].
+
+Example ex_tag_move_effects :
+  let d := run false (empty_db [s1; s2]) ex_move_history in
+  let move := Declare (o_in s1) (lit "a") (lit "2") None None (Some current) in
+  db_tag d s1 (lit "a") current linux = Some (lit "1") /\ db_tag d s2 (lit "a") current linux = Some (lit "1") /\
+  effects d move = Ok [ WriteC s1 (lit "a", current) [(linux, lit "2")]; RemoveC s2 (lit "a", current) ] /\
+  effects_pinned d move = Ok [ RemoveC s1 (lit "a", current); WriteC s1 (lit "a", current) [(linux, lit "2")] ].
 Proof. vm_compute. auto. Qed.
 
 Example ex_conflict_hypotheses :
